@@ -172,3 +172,15 @@ claim("C19", "other",
       "audit, not a solver claim.",
       "symbolic registry pre-states over real definition code + bounded model checking of an extracted automaton",
       "DESIGN.md 4/C19", "internmodel")
+
+claim("C20", "model_checking",
+      "The step system (one atomic step per source line) is regenerated from the AST of the real "
+      "__new__/__init__ of Dimension, Prefix, Unit, Logarithm and LogarithmicUnit; z3 decides over ALL "
+      "line-level schedules of 2 (quick) / 3 (thorough) threads performing a first-time construction of one "
+      "key whether all threads end with the table's single object; a reachability witness guards against "
+      "vacuity and a schedule found is replayed on real threads stepped line by line through sys.settrace.",
+      "Line granularity (a subset of CPython's preemption points); dict.setdefault and `with lock` taken as "
+      "atomic / mutually exclusive; statements the extractor does not recognise are a harness error; "
+      "free-threaded builds and races in alias on named definitions outside.",
+      "AST-extracted step system + z3 bounded model checking over symbolic schedules", "DESIGN.md 4/C20",
+      "stepbmc")
